@@ -23,7 +23,8 @@ W_MEMB = {"mkv_u": 4, "mku": 3, "u_add": 8, "u_rm": 8, "v_add_uni": 8, "v_rm_uni
 W_LAWS = {"mku_l": 4, "mkw": 3, "set_laws": 10, "set_applies": 10}
 
 PROFILES = {
-    "C01": dict(W_STRUCT),
+    # universes are vertices: they take part as edge ends, and carry members that have links of their own
+    "C01": {**W_STRUCT, "mku": 1, "mkv_u": 1, "u_add": 4, "v_add_uni": 2},
     "C02": dict(W_MEMB),
     # laws are (re)assigned on universes that have members, nested universes and themselves among them
     "C19": {**W_LAWS, "u_add": 3, "v_add_uni": 2, "u_rm": 1, "mkv_u": 1},
